@@ -78,13 +78,19 @@ def _run_case(ctx, case):
             ctx.judge(False, case, mech=mech, expected=obs.show(want), got=repr(ex),
                       nontrivial=nontrivial)
             return
-    if not isinstance(r, FmtStr):
-        ctx.judge(False, case, mech=mech, expected="FmtStr", got=repr(type(r)))
-        return
-    got = obs.cells(r)
-    ok = got == want and len(r) == len(want) and r.s == obs.text_of(want)
-    ctx.judge(ok, case, mech=mech, expected=obs.show(want), got=obs.show(got),
-              nontrivial=nontrivial)
+    problems, got = obs.result_problems(r, want)
+    ctx.judge(not problems, case, mech=mech, expected=obs.show(want),
+              got=obs.show(got) if got is not None else None, detail=problems, nontrivial=nontrivial)
+    if not problems and case.get("op") != "append":
+        # the result goes on behaving like its characters: appending to it lands at its end
+        try:
+            r2 = r.append("!")
+            p2, g2 = obs.result_problems(r2, want + obs.observe("!"))
+        except Exception as ex:  # noqa
+            p2, g2 = ["append to the result raised %r" % (ex,)], None
+        if p2:
+            ctx.judge(False, case, mech=mech + "-then-append", expected=obs.show(want) + "!",
+                      got=obs.show(g2) if g2 is not None else None, detail=p2)
     after = obs.cells(f)
     if after != F:
         ctx.judge(False, case, mech="C09:operand-changed", expected=obs.show(F),
